@@ -12,7 +12,7 @@ with decidable equality; `None` is `Option.none`.
 -/
 import GT.Model.Rep
 
-namespace GT
+namespace GT.RepW
 
 /-- `FSA(graph_dict, start_vertices)`: `{vertex: {label: neighbour}}`, insertion ordered -/
 structure Aut (V : Type) where
@@ -201,4 +201,4 @@ def freeWordsLessThan (ρ : Rep n R) (length : Nat) : List String :=
   (List.range length).flatMap ρ.freeWordsOfLength
 
 end Rep
-end GT
+end GT.RepW
